@@ -324,3 +324,58 @@ def d_blank(i: int, x: bool, n: int, a: List[int], is_async: bool) -> bool:
         if out and not out.isspace():
             return False
     return True
+
+
+# ---- blank-block suppression must not change what the block's side effects produce later --------------
+SIDE = [
+    "{% if x %} {% capture z %}A{{ n }}{% endcapture %} {% endif %}[{{ z }}]",
+    "{% unless x %}\n{% assign y = n %}\n{% endunless %}[{{ y }}]",
+    "{% for i in a %} {% capture z %}{{ z }}{{ i }}{% endcapture %} {% endfor %}[{{ z }}]",
+    "{% case n %}{% when 1 %} {% capture z %}one{% endcapture %}{% else %} {% assign z = 'else' %} {% endcase %}[{{ z }}]",
+    "{% if x %} {% increment c %} {% endif %}[{% increment c %}]{% if x %} {% cycle 'a', 'b' %} {% endif %}[{% cycle 'a', 'b' %}]",
+    "{% with p: n %} {% capture z %}{{ p }}{% endcapture %} {% endwith %}[{{ z }}]",
+    "{% if x %} {% for i in a %} {% capture z %}L{{ i }}{% endcapture %} {% endfor %} {% endif %}[{{ z }}]",
+    "{% if x %}{% capture z %}{% capture w %}in{% endcapture %}o{{ w }}{% endcapture %}{% endif %}[{{ z }}{{ w }}]",
+    "{% if x %} {% capture z %}{% render 'p', v: n %}{% endcapture %} {% endif %}[{{ z }}]{% unless x %} {% capture u %}{% include 'p' %}{% endcapture %} {% endunless %}[{{ u }}]",
+    "{% if x %} {% macro m %}M{{ n }}{% endmacro %} {% endif %}[{% call m %}]{% if x %} {% capture z %}{% call m %}{% endcapture %} {% endif %}[{{ z }}]",
+]
+_SIDE_LOADER = __import__("liquid2").DictLoader({"p": "({{ v }}{{ n }})"})
+
+
+class _SideOn(Environment):
+    suppress_blank_control_flow_blocks = True
+
+
+class _SideOff(Environment):
+    suppress_blank_control_flow_blocks = False
+
+
+SIDE_ON = [_SideOn(loader=_SIDE_LOADER).from_string(s) for s in SIDE]
+SIDE_OFF = [_SideOff(loader=_SIDE_LOADER).from_string(s) for s in SIDE]
+for _t in SIDE_ON + SIDE_OFF:
+    try:
+        _t.render(x=True, n=1, a=[1])
+    except Exception:  # noqa: BLE001
+        pass
+
+
+def _squash(s: str) -> str:
+    return "".join(s.split())
+
+
+@cond(
+    pre=["-1 <= n <= 3", "len(a) <= 2", "all(0 <= k <= 3 for k in a)"],
+    timeout=200,
+    shard={"i": list(range(len(SIDE))), "is_async": [False, True]},
+    covers="blank-block suppression removes nothing but whitespace also *later*: what a suppressed block captured, assigned, counted, cycled or defined (macro) is printed after the block exactly as without suppression - through render() and render_async()",
+    bounds="10 programs (capture/assign/increment/cycle/macro inside if, unless, for, case, with and nested blocks; captures of partial renders and macro calls); x bool, n in -1..3, list len <= 2",
+    grid=lambda: [(i, s, x, n, [1, 2]) for i in range(len(SIDE)) for s in (False, True) for x in (False, True) for n in (0, 1, 2)],
+)
+def d_suppress_effects(i: int, is_async: bool, x: bool, n: int, a: List[int]) -> bool:
+    outs = []
+    for t in (SIDE_ON[i], SIDE_OFF[i]):
+        try:
+            outs.append(("ok", _squash(drive(t.render_async(x=x, n=n, a=a)) if is_async else t.render(x=x, n=n, a=a))))
+        except LiquidError as e:
+            outs.append(("err", type(e).__name__))
+    return outs[0] == outs[1]
